@@ -103,7 +103,11 @@ func cachePorcupineModel(m *cacheModel) porcupine.Model {
 
 // checkCacheHistory decides a (possibly concurrent) cache history.
 func checkCacheHistory(limit int, relaxed int, ops []cOp) linResult {
-	m := &cacheModel{limit: limit, relaxed: relaxed}
+	return checkCacheHistoryWith(&cacheModel{limit: limit, relaxed: relaxed}, ops)
+}
+
+// checkCacheHistoryWith decides a history against a given variant of the model.
+func checkCacheHistoryWith(m *cacheModel, ops []cOp) linResult {
 	pops := make([]porcupine.Operation, len(ops))
 	for i, o := range ops {
 		if o.in.kind == cDel {
